@@ -45,6 +45,12 @@ pub struct Case {
     /// when present the first response is a 307 to this URL: the proxy choice must be made again for it
     #[serde(default)]
     pub redirect_to: Option<UrlSpec>,
+    /// the caller sets a Host header of its own (the URL's authority must win)
+    #[serde(default)]
+    pub caller_host: bool,
+    /// the prepared request is sent a second time (nothing may carry over from the first exchange)
+    #[serde(default)]
+    pub send_twice: bool,
 }
 
 pub struct C08;
@@ -302,7 +308,7 @@ non-trivial = a proxy is involved or the URL has >= 2 of {explicit port, IPv6, f
         let paths: Vec<Option<Vec<String>>> = vec![None, Some(vec![]), Some(vec!["a".into(), "b c".into()])];
         let queries: Vec<Option<Vec<(String, String)>>> = vec![None, Some(vec![("x".into(), "1".into()), ("y".into(), "a b".into())])];
         let frags: Vec<Option<String>> = vec![None, Some("frag".into())];
-        let infos: Vec<Option<(String, Option<String>)>> = vec![None, Some(("user".into(), None)), Some(("user".into(), Some("pw".into())))];
+        let infos: Vec<Option<(String, Option<String>)>> = vec![None, Some(("user".into(), None)), Some(("user".into(), Some("pw".into()))), Some((String::new(), Some("pwonly".into())))];
         let pkinds = vec![0u8, 1, 2]; // none, http proxy, https proxy
         let pcreds: Vec<Option<(String, Option<String>)>> = vec![None, Some(("pu".into(), Some("pp".into())))];
         let phosts = vec![HostSpec::Domain(vec!["proxy".into(), "test".into()]), HostSpec::V4([198, 51, 100, 3]), HostSpec::V6(1)];
@@ -335,7 +341,7 @@ non-trivial = a proxy is involved or the URL has >= 2 of {explicit port, IPv6, f
                                                         0 => None,
                                                         k => Some(ProxySpec { https: *k == 2, host: ph.clone(), port: *pp, creds: pc.clone() }),
                                                     };
-                                                    all.push(Case { url, http_proxy: proxy.clone(), https_proxy: proxy, redirect_to: None });
+                                                    all.push(Case { url, http_proxy: proxy.clone(), https_proxy: proxy, redirect_to: None, caller_host: false, send_twice: false });
                                                 }
                                             }
                                         }
@@ -356,8 +362,10 @@ non-trivial = a proxy is involved or the URL has >= 2 of {explicit port, IPv6, f
             prop_oneof![1 => Just(None), 2 => proxy_spec().prop_map(Some)],
             prop_oneof![1 => Just(None), 2 => proxy_spec().prop_map(Some)],
             prop_oneof![3 => Just(None), 1 => urlgen::url_spec(true, false).prop_map(Some)],
+            prop::bool::weighted(0.2),
+            prop::bool::weighted(0.25),
         )
-            .prop_map(|(mut url, http_proxy, https_proxy, redirect_to)| {
+            .prop_map(|(mut url, http_proxy, https_proxy, redirect_to, caller_host, send_twice)| {
                 let redirect_to = redirect_to.map(|mut u| {
                     u.fragment = None;
                     if u.https && https_proxy.is_some() {
@@ -372,15 +380,16 @@ non-trivial = a proxy is involved or the URL has >= 2 of {explicit port, IPv6, f
                         url.host = HostSpec::Domain(vec!["v6-excluded".into(), "test".into()]);
                     }
                 }
-                Case { url, http_proxy, https_proxy, redirect_to }
+                Case { url, http_proxy, https_proxy, redirect_to, caller_host, send_twice }
             })
             .boxed()
     }
 
     fn check(case: &Case, ctx: &mut Ctx) -> Outcome {
         let loc = case.redirect_to.as_ref().map(|u| u.render());
+        let hops_per_send = 1 + usize::from(case.redirect_to.is_some());
         let (_guard, net) = install_router(
-            move |_, idx| match (&loc, idx) {
+            move |_, idx| match (&loc, idx % hops_per_send) {
                 (Some(l), 0) => format!("HTTP/1.1 307 Temporary Redirect\r\nLocation: {l}\r\nContent-Length: 0\r\n\r\n").into_bytes(),
                 _ => ok_response(),
             },
@@ -394,7 +403,19 @@ non-trivial = a proxy is involved or the URL has >= 2 of {explicit port, IPv6, f
             b = b.https_proxy(url::Url::parse(&p.render()).expect("proxy url"));
         }
         let url = case.url.render();
-        let res = attohttpc::get(&url).proxy_settings(b.build()).danger_accept_invalid_certs(true).send();
+        let mut rb = attohttpc::get(&url).proxy_settings(b.build()).danger_accept_invalid_certs(true);
+        if case.caller_host {
+            rb = rb.header("Host", "elsewhere.invalid:81");
+        }
+        let mut prepared = match rb.try_prepare() {
+            Ok(p) => p,
+            Err(e) => return Outcome::fail("C08:prepare-failed", format!("{e:?}")),
+        };
+        let mut res = prepared.send();
+        if case.send_twice && res.is_ok() {
+            drop(res);
+            res = prepared.send();
+        }
         let proxy = select(&case.url, &case.http_proxy, &case.https_proxy);
         let exs = exchanges(&net);
         let route = match (case.url.https, proxy.is_some()) {
@@ -408,13 +429,21 @@ non-trivial = a proxy is involved or the URL has >= 2 of {explicit port, IPv6, f
             let t = exs.first().and_then(|e| e.tls_error.clone());
             return Outcome::fail(format!("C08:send-failed:{route}"), format!("{e:?} (url {url}, proxy {:?}, tunnel tls error {t:?})", proxy.map(|p| p.render())));
         }
-        let hops = 1 + usize::from(case.redirect_to.is_some());
+        let hops = hops_per_send * if case.send_twice { 2 } else { 1 };
         if exs.len() != hops {
             return Outcome::fail("C08:dials", format!("{} connections, expected {hops}", exs.len()));
         }
         if let Err((sig, d)) = check_exchange("C08", &exs[0], &case.url, &[], proxy) {
             return Outcome::fail(sig, d);
         }
+        if case.send_twice {
+            // the second send starts again at the request's own URL
+            ctx.label("sent-twice");
+            if let Err((sig, d)) = check_exchange("C08", &exs[hops_per_send], &case.url, &[], proxy) {
+                return Outcome::fail(format!("{sig}:second-send"), d);
+            }
+        }
+        ctx.label_if(case.caller_host, "caller-supplied-host");
         if let Some(u2) = &case.redirect_to {
             let p2 = select(u2, &case.http_proxy, &case.https_proxy);
             ctx.label("redirect-hop");
